@@ -211,3 +211,13 @@ Example C17_nonvacuous_offset_units :
     (list_to_map [("b", VQty (mkq 25 1) (mkuc [("degree_Celsius", mkq 1 1)]))])
   = Ok [VNum (mkq 5963 20); VNum (mkq 77 1)].
 Proof. exact example_offset. Qed.
+(** ** repeated use: the k-th call through one wrapper (one decorator object) is re-wrapped like
+    the first; equal calls give equal outcomes *)
+Theorem C17_repeated_calls U Q strict specs ret ps f calls outs i pos kw :
+  wraps_session U Q strict specs ret ps f calls = Ok outs → calls !! i = Some (pos, kw) →
+  outs !! i = Some (wraps_run U Q strict specs ret ps f pos kw).
+Proof. exact (session_nth U Q strict specs ret ps f calls outs i pos kw). Qed.
+Theorem C17_repeated_calls_agree U Q strict specs ret ps f calls outs i j c :
+  wraps_session U Q strict specs ret ps f calls = Ok outs →
+  calls !! i = Some c → calls !! j = Some c → outs !! i = outs !! j.
+Proof. exact (session_repeat U Q strict specs ret ps f calls outs i j c). Qed.
